@@ -328,6 +328,7 @@ impl Join {
                     columns,
                     string_pool.long_string_refs(),
                 );
+                validate_join_condition(&table, &condition)?;
                 let mut rows = Vec::<Vec<ValueRef>>::new();
                 for value_refs1 in rows1.iter() {
                     for value_refs2 in rows2.iter() {
@@ -368,6 +369,7 @@ impl Join {
                     columns,
                     string_pool.long_string_refs(),
                 );
+                validate_join_condition(&table, &condition)?;
                 let mut rows = Vec::<Vec<ValueRef>>::new();
                 for value_refs1 in rows1.iter() {
                     let mut found_any = false;
@@ -405,6 +407,20 @@ impl Join {
             }
         }
     }
+}
+
+/// Checks that every column named by a join condition exists in the joined
+/// table (evaluating the condition would otherwise panic).
+fn validate_join_condition(table: &Table, condition: &Expr) -> io::Result<()> {
+    for column_name in condition.column_names().into_iter() {
+        if !table.has_column(column_name) {
+            invalid_input!(
+                "Joined table has no column named {:?}",
+                column_name
+            );
+        }
+    }
+    Ok(())
 }
 
 impl fmt::Display for Join {
